@@ -37,7 +37,7 @@ impl Prop for C01P {
         "breadth-first search to fixpoint over canonical states (dims + rank-compressed cell labels) of a real TooDee<u32>; \
          initial states = every constructor call (default, with_capacity, new, init, from_vec, from_box; all dimension pairs and buffer lengths in the bound); \
          in every state every action of the alphabet (insert/push/remove/pop of rows and columns with every index 0..=dim+1, every supplied length 0..=dim+1 and every front/back drain consumption split, \
-         clear, swap_dimensions, reserve/reserve_exact/shrink_to_fit, fill, clone_from_slice, clone_from_toodee, swap, swap_rows, swap_cols, flips, translate, sorts, copy_within, Index/data_mut writes with in-range and out-of-range arguments, insertions from iterators that lie about their length (rejected mid-way; the state is read back)) \
+         clear, swap_dimensions, reserve/reserve_exact/shrink_to_fit, fill, clone_from_slice, clone_from_toodee, Clone::clone_from (same, transposed, smaller, larger, empty sources), swap, swap_rows, swap_cols, flips, translate, sorts, copy_within, Index/data_mut writes with in-range and out-of-range arguments, insertions from iterators that lie about their length (rejected mid-way; the state is read back)) \
          is executed twice on a freshly materialised array (exact capacity, spare capacity); after each the shape invariant and cell-by-cell equality with a rows-of-cells model are checked. \
          A case is one (state, action, capacity variant); it is non-trivial when the call was accepted (did not panic); distinct by (state key, action, variant). \
          Afterwards each state's shortest history is replayed on one live object and must reach the recorded key (traces_validated_against_impl)."
